@@ -229,6 +229,25 @@ class CallMixin:
                    is_static=any(isinstance(d, ast.Name) and d.id == "staticmethod" for d in func.node.decorator_list))
         self.emit("call", node, callee=func.qualname, args=args, kwargs=kwargs, resolved=True, inlined=True,
                   self_val=fv.self_val)
+        if is_gen:
+            # a generator function whose body is `for t in S: [if c:] yield e` is the generator expression it spells
+            body_ = [st_ for st_ in func.node.body if not (isinstance(st_, ast.Expr) and isinstance(st_.value, ast.Constant))]
+            if len(body_) == 1 and isinstance(body_[0], ast.For) and not body_[0].orelse:
+                lb = list(body_[0].body)
+                conds_: List[ast.expr] = []
+                if len(lb) == 1 and isinstance(lb[0], ast.If) and not lb[0].orelse:
+                    conds_.append(lb[0].test)
+                    lb = list(lb[0].body)
+                if len(lb) == 1 and isinstance(lb[0], ast.Expr) and isinstance(lb[0].value, ast.Yield) and lb[0].value.value is not None:
+                    gen = ast.GeneratorExp(elt=lb[0].value.value, generators=[
+                        ast.comprehension(target=body_[0].target, iter=body_[0].iter, ifs=conds_, is_async=0)])
+                    ast.copy_location(gen, body_[0])
+                    ast.fix_missing_locations(gen)
+                    self.stack.append(fr)
+                    try:
+                        return self.eval(gen, fr)
+                    finally:
+                        self.stack.pop()
         self.stack.append(fr)
         saved_handlers = None
         n_events_before = len(self.events)
@@ -672,6 +691,8 @@ class CallMixin:
                 return self.getattr(recv, name, node)
             if len(args) == 2 and isinstance(recv, (PropsV, SchemaV, Inst, ModV)):
                 return self.getattr(recv, name, node)      # getattr(x, "name") is x.name
+            if len(args) == 2 and isinstance(recv, Ext) and "." not in recv.name.replace("builtins.", ""):
+                return self.getattr(recv, name, node)      # getattr(<imported module>, "name") is module.name
             t = Term("getattr", (recv, name), node=node)
             if len(args) == 2:
                 self.partial("getattr", (AttributeError,), node, operands=(recv, args[1]))
